@@ -71,12 +71,20 @@ static inline v8f64 llvm_x86_avx512_mask_rndscale_pd_512(v8f64 a, u32 imm, v8f64
 /* truncating / rounding conversions to int32: NaN and out-of-range give the "integer indefinite" 0x80000000 */
 #define LL_CVTT32(x) (((x) == (x) && (x) > -2147483904.0 && (x) < 2147483648.0) ? (u32)(s32)(x) : (u32)0x80000000u)
 #define LL_CVTR32_f32(x) LL_CVTT32(nearbyintf(x))
-#define LL_CVTR32_f64(x) LL_CVTT32(nearbyint(x))
+#define LL_CVTT32_D(x) (((x) == (x) && (x) > -2147483649.0 && (x) < 2147483648.0) ? (u32)(s32)(x) : (u32)0x80000000u)
+#define LL_CVTR32_f64(x) LL_CVTT32_D(nearbyint(x))
 #ifdef NEED_llvm_x86_sse2_cvttps2dq
 static inline v4u32 llvm_x86_sse2_cvttps2dq(v4f32 a) { v4u32 r; for (int i = 0; i < 4; ++i) r.e[i] = LL_CVTT32(a.e[i]); return r; }
 #endif
 #ifdef NEED_llvm_x86_sse2_cvtps2dq
 static inline v4u32 llvm_x86_sse2_cvtps2dq(v4f32 a) { v4u32 r; for (int i = 0; i < 4; ++i) r.e[i] = LL_CVTR32_f32(a.e[i]); return r; }
+#endif
+/* CVTPD2DQ / CVTTPD2DQ: two doubles -> two int32 in the low half, upper half zero (SDM) */
+#ifdef NEED_llvm_x86_sse2_cvtpd2dq
+static inline v4u32 llvm_x86_sse2_cvtpd2dq(v2f64 a) { v4u32 r; r.e[0] = LL_CVTR32_f64(a.e[0]); r.e[1] = LL_CVTR32_f64(a.e[1]); r.e[2] = 0; r.e[3] = 0; return r; }
+#endif
+#ifdef NEED_llvm_x86_sse2_cvttpd2dq
+static inline v4u32 llvm_x86_sse2_cvttpd2dq(v2f64 a) { v4u32 r; r.e[0] = LL_CVTT32_D(a.e[0]); r.e[1] = LL_CVTT32_D(a.e[1]); r.e[2] = 0; r.e[3] = 0; return r; }
 #endif
 #ifdef NEED_llvm_x86_avx_cvtt_ps2dq_256
 static inline v8u32 llvm_x86_avx_cvtt_ps2dq_256(v8f32 a) { v8u32 r; for (int i = 0; i < 8; ++i) r.e[i] = LL_CVTT32(a.e[i]); return r; }
